@@ -146,6 +146,18 @@ contract(T + "._bayesian_vote", "C06", params=AGG_PARAMS, elem_facts=VOTE_FACTS,
          ensures=dict(COMMON))
 
 
+# ---------------------------------------------------------------- construction: strategy, threshold and minimum electorate are the caller's
+contract(T + ".__init__", "C06", is_init=True, params={"n_agents": "int", "budget": "obj:ATP_Store", "threshold": "opt:real",
+                                                        "on_quorum_reached": "opt:callback", "on_quorum_failed": "opt:callback"},
+         raises=[], options={"opaque_ctor": ["BioAgent"]},
+         loops={"for i in range(n_agents)": {"invariant": ["len(self.colony) == _k"], "modifies": ["self.colony"]}},
+         requires=["n_agents >= 0"],
+         ensures={"configuration-is-stored-as-given": "self.strategy == strategy and self.min_voters == min_voters and "
+                                                      "(threshold is None) == (self.custom_threshold is None) and "
+                                                      "implies(threshold is not None, self.custom_threshold == threshold)",
+                  "one-voter-per-requested-agent": "len(self.colony) == n_agents"})
+
+
 def native_replay(rep):
     """ballots are symbolic lists of Vote objects: witnesses are searched for over small electorates on the real aggregators"""
     import os, sys
